@@ -24,6 +24,47 @@ def collect(chk, task, name, cases, payload_extra=None, sample_fn=None):
             for b in x['bad']:
                 chk.violation(dict(stage=name, what=b.split(':')[0][:40].rstrip('0123456789. ')), b, dict(spec=x['spec'], ops=x.get('ops')))
     chk.stages[name] = dict(cases=n, skipped=sk)
+    return [x for ok, r in res if ok for x in r['results'] if 'error' not in x and not x.get('skipped')]
+
+SESSION_HEADER = '''From Coq Require Import List Bool Arith.
+Import ListNotations.
+From PM Require Import Model.Session.
+Set Printing Depth 10000000. Set Printing Width 1000000.
+Definition obs (l0 : list (nat * nat)) (ops : list (sop nat nat)) : nat * list nat :=
+  let s := srun nat nat Faithful (fresh_session nat nat 0 l0) ops in (s_loads s, map fst (s_rhs s)).
+'''
+def session_stage(chk, results):
+    """the operation sequences run on the real objects, run on Model/Session.v inside Coq: number of times the loads
+    sit on the matrix in memory and the non-zero positions of the right-hand side must be the model's"""
+    if not vo_ok('Model/Session.v'):
+        chk.tie_broken('correspondence', 'session', 'model (Model/Session.v) does not compile'); return
+    items = [x for x in results if 'rhs_nz' in x]
+    def cops(x):
+        out = []; src0 = None
+        for o in x['ops']:
+            if o[0] == 'setf': out.append('SSetF 1')
+            elif o[0] in ('compute',): out.append('SCompute')
+            elif o[0] == 'compute2': out += ['SCompute', 'SCompute']
+            elif o[0] == 'resrc': out.append('SSources %s' % coq_list(['(%d, 1)' % p for p in o[1]]))
+            else: out.append('SField')
+        return coq_list(out)
+    body = SESSION_HEADER + '\n'.join('Eval vm_compute in (obs %s %s).' % (coq_list(['(%d, 1)' % p for p in x['src0']]), cops(x)) for x in items) + '\n'
+    rc, out = coq_eval('session_%d' % os.getpid(), body)
+    blocks = re.findall(r'(?s)=\s*\((\d+),\s*(\[[^\]]*\])\)', out)
+    if rc != 0 or len(blocks) != len(items):
+        chk.tie_broken('correspondence', 'session', 'model evaluation failed: ' + out[-500:]); return
+    nbad = 0
+    for x, (nl, rl) in zip(items, blocks):
+        mrhs = sorted(set(int(v) for v in re.findall(r'\d+', rl)))
+        # sources of 0 V leave a zero entry; the model lists every registered source
+        want_rhs = sorted(set(x['rhs_nz']) | (set(mrhs) - set(x['src_pulses'])))
+        if x['load_mult'] is not None and abs(x['load_mult'] - int(nl)) > 1e-6:
+            nbad += 1
+            chk.tie_broken('correspondence', 'session', 'after %r the loads sit %.6g times on the matrix in memory, the model says %s' % (x['ops'], x['load_mult'], nl))
+        if want_rhs != mrhs:
+            nbad += 1
+            chk.tie_broken('correspondence', 'session', 'after %r the right-hand side is non-zero at %r, the model says %r' % (x['ops'], x['rhs_nz'], mrhs))
+    chk.stages['session'] = dict(sessions=len(items), disagreements=nbad)
 
 def run(tier, seed):
     chk = Check('C14', tier, seed)
@@ -35,12 +76,13 @@ def run(tier, seed):
                        'the cache state machine abstracts what is cached (zint per frequency, zins) and when it is cleared; that abstraction is '
                        'what the hist stage and the two-frequency dload stage check against the real object']
     standard_front(chk, 'Props/C14.v', needs_items=('skin_zint', 'ins_zins', 'ins_half'),
-                   extra_vo=('Model/History.v', 'Proofs/HistoryP.v', 'Corr/LoadDriver.v'))
+                   extra_vo=('Model/History.v', 'Proofs/HistoryP.v', 'Model/Session.v', 'Proofs/SessionP.v', 'Corr/LoadDriver.v'))
     rng = random.Random(seed)
     C08.run_dload(chk, rng, 16 if tier == 'quick' else 800)
     q = tier == 'quick'
-    collect(chk, 'hist', 'hist', stage_lin.gen_cases(rng, 32 if q else 1600),
-            sample_fn=lambda x: dict(stage='hist', ops=x['ops'][:6], load_classes=x['kinds']))
+    hres = collect(chk, 'hist', 'hist', stage_lin.gen_cases(rng, 32 if q else 1600),
+                   sample_fn=lambda x: dict(stage='hist', ops=x['ops'][:6], load_classes=x['kinds']))
+    session_stage(chk, hres)
     collect(chk, 'hist.sweep', 'sweep', stage_lin.gen_cases(rng, 16 if q else 480),
             sample_fn=lambda x: dict(stage='sweep', steps=x['steps'], load_kinds=x['kinds']))
     pc = [dict(id=i, seed=rng.randrange(10 ** 9), spec=gen.gen_antenna(rng, family=rng.choice(['star', 'chain', 'loop']), tags=rng.choice(['none', 'gaps', 'perm'])))
